@@ -154,6 +154,10 @@ func ListSolarFromBaZiBySectAndBaseYear(yearGanZhi string, monthGanZhi string, d
 		hours = []int{0, 23}
 	}
 	startYear := baseYear - 1
+	// 起始年立春之前的时刻，年柱属于上一年（公元1年立春前为0年）
+	for y-60 >= startYear {
+		y -= 60
+	}
 
 	// 结束年
 	endYear := time.Now().Local().Year()
